@@ -89,11 +89,12 @@ PROPS = {
         assumptions=['metadata restricted to at most one entry (bincode of larger maps is not canonical)'],
     ),
     'C15': dict(
-        gen=lambda rng, tier: gen.kv_scenario(rng, 'c15', size=tier),
-        p_cmds={'counts'}, oracle_cmds={'counts', 'states'},
+        gen=lambda rng, tier: gen.acct_scenario(rng, size=tier),
+        p_cmds={'counts', 'fcounts'}, oracle_cmds={'counts', 'states'}, py_oracle=lambda res, i: oracle_c15(res, i),
         count={'quick': 240, 'thorough': 4000},
         nontrivial=gen.nontrivial_kv, features=kv_features, rule=RULE_KV,
-        assumptions=['disk_used and corrupted_blobs_count are checked by the C15 byte-level scenarios once L5 lands'],
+        assumptions=['`fcounts` compares blobs_count / next_blob_id / corrupted_blobs_count / disk_used with a listing of the '
+                     'work directory and of its corrupted sub-directory at quiescent points (implementation only)'],
     ),
 }
 
@@ -107,10 +108,42 @@ def _states_before(res, i):
     return None
 
 
+def oracle_c15(res, i):
+    """the counters against the directory listing taken by the harness at the same (quiescent) moment"""
+    cmd = res['script'][i].split()
+    out = res['impl'][i]
+    if cmd[0] != 'fcounts' or not out.startswith('fcounts '):
+        return None
+    f = dict(t.split('=', 1) for t in out.split()[1:])
+    n = {k: (int(v) if v.isdigit() else None) for k, v in f.items()}
+    ignore = _cfg(res, 'ignore', '0') == '1'
+    if n['blobs'] != n['held']:
+        return f"MISMATCH blobs_count {n['blobs']} but the storage holds {n['held']} blobs"
+    if n['known'] != n['held']:
+        return f"MISMATCH {n['held']} blobs held but {n['known']} of them have a blob file in the work directory"
+    if not ignore and n['files'] != n['blobs']:
+        return f"MISMATCH blobs_count {n['blobs']} differs from the number of blob files in the work directory {n['files']}"
+    if ignore and n['files'] < n['blobs']:
+        return f"MISMATCH blobs_count {n['blobs']} exceeds the number of blob files {n['files']}"
+    if n['corr'] != n['corrfiles']:
+        # (with `ignore_corrupted` an unreadable blob stays in place and is not counted)
+        return f"MISMATCH corrupted_blobs_count {n['corr']}: {n['corrfiles']} blob files in the corrupted directory"
+    want_next = 0 if n['maxfile'] is None else n['maxfile'] + 1
+    if n['next'] != want_next:
+        return f"MISMATCH next_blob_id {n['next']} but the largest blob id on disk is {f['maxfile']}"
+    if n['disk'] != n['dirsum']:
+        return (f"MISMATCH disk_used {n['disk']} differs from the sizes of the blob and index files of the held blobs "
+                f"{n['dirsum']}")
+    return 'OK'
+
+
 def oracle_c04(res, i):
     """lifecycle/maintenance calls succeed whenever their documented precondition holds; afterwards the storage
     keeps accepting writes and deletes; background maintenance stays alive"""
     cmd = res['script'][i].split()
+    if cmd[0] == 'fcounts':
+        v = oracle_c15(res, i)
+        return None if v == 'OK' else v
     out = res['impl'][i]
     st = _states_before(res, i)
     c = cmd[0]
@@ -385,8 +418,9 @@ def trace_violation(evs):
     seen_blob = set()
     for j, e in evs:
         kind, rest = e[0], e[1:]
+        injected = None
         if '!' in rest:
-            rest = rest.split('!')[0]
+            rest, injected = rest.split('!')[0], rest.split('!')[1]
         f = rest.split(':')
         name = f[0]
         if name.startswith('x') or name == 'o':
@@ -422,6 +456,8 @@ def trace_violation(evs):
                     hi[name] = off + ln
                 last_sync.pop(name, None)
             elif kind == 'S':
+                if injected == 'fail':
+                    continue        # the sync was issued and failed: nothing was made durable
                 if name in created and created[name] == 1:
                     created[name] = 2
                 last_sync[name] = int(f[1])
@@ -473,7 +509,12 @@ def oracle_c12(res, i):
                                 return f'MISMATCH blob {now[0][0]} has {now[0][3]} un-synced bytes after close of the active blob'
                         break
     if c in ('fsync', 'close', 'open', 'restart', 'settle') and out != 'ok':
-        return f'MISMATCH {c}: {out}'
+        armed = False
+        for j in range(i):
+            t = res['script'][j].split()[0]
+            armed = True if t == 'fault' else (False if t == 'clearfaults' else armed)
+        if not armed:
+            return f'MISMATCH {c}: {out}'
     return None
 
 
@@ -510,7 +551,8 @@ def sync_features(lines):
 
 
 PROPS['C12'] = dict(
-    gen=lambda rng, tier: gen.sync_scenario(rng, size=tier),
+    gen=lambda rng, tier: (gen.sync_scenario if rng.random() < 0.7 else
+                           gen.sync_rotation_scenario if rng.random() < 0.5 else gen.sync_fault_scenario)(rng, size=tier),
     p_cmds={'trace', 'fstates', 'fsync', 'close', 'open', 'dirty'},
     impl_only_cmds={'fstates'}, impl_only_if_ct={'trace'},   # ct: markers into several closed blobs are issued concurrently
     oracle_cmds={'states'}, py_oracle=oracle_c12,
